@@ -26,6 +26,9 @@ def scenarios(tier: str) -> List[ConcScenario]:
     S.append(ConcScenario('tree/compute-vs-replace', hasher='samebin', capacity=40, prefill=tree, threads=[[('compute_inc', 5)], [('insert', 5)]], preemptions=2, yield_loads=th))
     S.append(ConcScenario('tree/compute-vs-remove-neighbour', hasher='const', capacity=40, prefill=tree, threads=[[('compute_inc', 5)], [('remove', 6)]], preemptions=2, yield_loads=th))
     S.append(ConcScenario('tree/split-by-resize-vs-compute', hasher='split', capacity=40, prefill=tree, threads=[[('reserve', 40)], [('compute_inc', 3)]], preemptions=(2 if th else 1), yield_loads=False))
+    # a list bin being turned into a tree (the treeifying insert copies the nodes) while a compute updates one of them
+    S.append(ConcScenario('treeify/insert-vs-compute-head', hasher='const', capacity=40, prefill=list(range(8)), threads=[[('insert', 8)], [('compute_inc', 0)]], preemptions=2, yield_loads=th))
+    S.append(ConcScenario('treeify/insert-vs-compute-mid', hasher='const', capacity=40, prefill=list(range(8)), threads=[[('insert', 8)], [('compute_inc', 5)]], preemptions=2, yield_loads=th))
     if th:
         S.append(ConcScenario('list/three-computes', hasher='identity', capacity=2, prefill=[0], threads=[[('compute_inc', 0)], [('compute_inc', 0)], [('compute_inc', 0)]], preemptions=2))
     return S
@@ -34,7 +37,7 @@ def scenarios(tier: str) -> List[ConcScenario]:
 def run(tier: str) -> int:
     chk = C.Check('C08', tier, 'model_checking')
     chk.bounds = {'threads': '2 (thorough 3) logical threads, one operation each', 'preemptions': '<= 2 (thorough 3)',
-                  'shapes': 'list bin, tree bin, bin under migration, tree bin split by a resize'}
+                  'shapes': 'list bin, tree bin, bin under migration, tree bin split by a resize, list bin being treeified'}
     chk.assumptions = ['sequentially consistent interleavings', 'a schedule-dependent counterexample is replayed in the interpreter, not natively']
     scs = scenarios(tier)
     results = run_conc(scs)
